@@ -991,7 +991,7 @@ func main() {
 		menu := buildMenu()
 		coreMenu := subMenu(menu, coreOps)
 		// depths count the leading cfg(...) step
-		depth, coreDepth := c.Pick(1+5, 1+6), c.Pick(1+6, 1+8)
+		depth, coreDepth := c.Pick(1+4, 1+5), c.Pick(1+7, 1+8)
 		if *depthFlag > 0 {
 			depth = *depthFlag
 		}
